@@ -425,6 +425,21 @@ fn run_program<T: Cur>(mut it: Option<T>, sec: Sec, incl_opt: bool, index: usize
                 };
                 let real = caught(|| it.as_mut().unwrap().set_raw_name(&arg).map_err(|e| e.to_string()));
                 out.steps += 1;
+                // A result beyond 65535 bytes: the property names "a packet that would become too large" among the
+                // errors but promises a hard limit for insertion only. Either outcome is taken for what it is: a
+                // reported error must leave everything as it was, a success must have the effect of the call.
+                let expected = match (&expected, cur, valid_new_name(&arg), &real) {
+                    (Err(OpErr::TooLarge), Some(i), Some(n), Ok(Ok(()))) => {
+                        let mut m = mb.clone();
+                        if sec == Sec::Question {
+                            m.q[0].name = n;
+                        } else {
+                            m.sec_mut(sec)[i].owner = n;
+                        }
+                        Ok(m)
+                    }
+                    _ => expected,
+                };
                 if real.is_err() {
                     judge(&nm_, &before, &mb, &expected, &real, &before, false, out);
                     return;
